@@ -932,7 +932,7 @@ func (e *SpecEnv) evalCall(x *ECall) SV {
 				return SV{t: app("select", fc.comp(e.cur, k, s), sarr(v.t)), typ: types.NewArray(types.Typ[types.Uint8], 0)}
 			case "int", "uint64", "uint32", "uint16", "uint8", "byte", "int64", "int32", "uint", "mathint":
 				return SV{t: e.eval(x.Args[0]).t, typ: mathInt}
-			case "blen", "sub", "strseq", "bytestr":
+			case "blen", "sub", "strseq", "bytestr", "stralgebra", "noaxioms":
 				// T-BYTES algebra (ext_bytesalgebra.go); a spec function of the same name takes precedence
 				if e.lookupSpecFn(id.Name) == nil {
 					if v, ok := e.evalAlgebraBuiltin(id.Name, x.Args); ok {
